@@ -39,7 +39,7 @@ LEVEL_NOTE = (
 )
 TECHNIQUE = "fault enumeration of interrupt delivery at every call (deterministic scheduler with asynchronous-exception injection) + real SIGINT subprocess runs"
 RULE = (
-    "Hypothesis draws a plan (optionally a registry world with stored nodes), workers 1..5, scheduler, optionally calls that fail on their own before the interrupt (max_errors lets the run continue), and a schedule for "
+    "Hypothesis draws a plan (optionally a registry world with stored nodes), workers 1..5, scheduler, optionally calls that fail on their own before or after the interrupt (any max_errors), one-node physical plans, and a schedule for "
     "the deterministic scheduler (opcode-level preemption of the calling thread). Every k in 1..N (N = call starts and "
     "store reads/writes of the uninterrupted run) is executed. Non-trivial = at delivery >= 1 call is in flight and >= 1 "
     "needed call has not started. Distinct = SHA-1 of (case, k)."
